@@ -49,7 +49,14 @@ def run(chk):
             batch.append(case)
             meta[case["id"]] = (c, ext, mode, r["name"])
             k += 1
-    results = vlib.run_bwexec(batch)
+    tdir = vlib.subdir("c12-traces")
+    results = vlib.run_bwexec(batch, trace_dir=tdir)
+    import os
+    import runtrace
+    all_events = {}
+    for fn in os.listdir(tdir):
+        all_events.update(runtrace.split_cases(runtrace.read_events(os.path.join(tdir, fn))))
+    runtrace.validate_pairing(chk, all_events, limit=3000)
     chk.exhaustive = not quick
 
     def judge(case, r, via):
